@@ -1597,6 +1597,19 @@ func (l *lexer) linebreak() bool {
 			}
 		default:
 			if !hash {
+				if r == '\\' {
+					// a line continuation is not the end of the
+					// linebreak; anything else begins the next word
+					l.mark(-1)
+					if !l.scanQuote(r) {
+						return false
+					}
+					if len(l.word) != 0 {
+						return true
+					}
+					l.mark(0)
+					continue
+				}
 				l.unread()
 				return true
 			}
